@@ -6,6 +6,9 @@ emit during delivery) drives the real Emitter and a reference model in
 lockstep; after every top-level operation the call logs and the listener
 tables must agree.
 """
+import collections
+import types
+
 from hypothesis import strategies as st
 
 from .. import snapshot
@@ -23,12 +26,30 @@ NAMES0 = ['', 'nb', 'nc']        # the empty string is an event name like any ot
 NAMEST = ['t:cell|A1', 'cell', 'A1']     # impl 'emittert': the first name stands for the tuple ('cell', 'A1') - any hashable value names an event, and that one is not the two names it is made of
 
 
+NAMESB = ['b:nb', 'nb', 'nc']            # impl 'emitterb': the first name stands for the bytes object b'nb', which is not the text 'nb'
+
+
 def names_of(impl):
-    return PNAMES if impl == 'parser' else (NAMES0 if impl == 'emitter0' else (NAMEST if impl == 'emittert' else NAMES))
+    return PNAMES if impl == 'parser' else (NAMES0 if impl == 'emitter0' else (NAMEST if impl == 'emittert' else (NAMESB if impl == 'emitterb' else NAMES)))
 
 
 def event_key(name):
+    if name.startswith('b:'):
+        return name[2:].encode('ascii')
     return tuple(name[2:].split('|')) if name.startswith('t:') else name
+
+
+def bound_context(pairs):
+    """The context as the host hands it over: nothing, a dict, or (by the values it holds) another kind of mapping."""
+    if not pairs:
+        return None
+    d = dict(pairs)
+    k = sum(v for v in d.values() if isinstance(v, int)) % 4
+    if k == 1:
+        return types.MappingProxyType(d)
+    if k == 3:
+        return collections.ChainMap(d)
+    return d
 PNAMES = ['callCellValue', 'callRangeValue', 'callVariable', 'callFunction']
 NCB = 5
 MAX_DEPTH = 3
@@ -141,9 +162,9 @@ class Driver(object):
         if nested:
             self.stats['during-delivery:' + kind] = self.stats.get('during-delivery:' + kind, 0) + 1
         if kind == 'on':
-            self.em.on(event_key(act[1]), self.cbs[act[2]], dict(act[3]) if act[3] else None)
+            self.em.on(event_key(act[1]), self.cbs[act[2]], bound_context(act[3]))
         elif kind == 'once':
-            self.em.once(event_key(act[1]), self.cbs[act[2]], dict(act[3]) if act[3] else None)
+            self.em.once(event_key(act[1]), self.cbs[act[2]], bound_context(act[3]))
         elif kind == 'on_many':
             for _ in range(act[3]):
                 self.em.on(event_key(act[1]), self.cbs[act[2]], None)
@@ -286,15 +307,15 @@ def case_strategy():
         ops = st.tuples(st.lists(sub, min_size=2, max_size=6), many, st.lists(rnd, min_size=1, max_size=8)).map(
             lambda t: t[0] + t[1] + [a for r in t[2] for a in r])
         return st.fixed_dictionaries({'impl': st.just(impl), 'scripts': scripts, 'ops': ops})
-    return st.sampled_from(['emitter', 'emitter', 'emitter0', 'emittert', 'parser', 'parser']).flatmap(build)
+    return st.sampled_from(['emitter', 'emitter', 'emitter0', 'emittert', 'emitterb', 'parser', 'parser']).flatmap(build)
 
 
 LAWS = [
     Law('lockstep', check, strategy=case_strategy(), nontrivial=nontrivial, key=key, classes=classes,
         required=('nested-same-name', 'during-delivery:on', 'during-delivery:off', 'during-delivery:offcb', 'during-delivery:once',
-                  'duplicate-subscription', 'op:once', 'op:offcb', 'impl:parser', 'impl:emitter', 'impl:emitter0', 'impl:emittert'),
+                  'duplicate-subscription', 'op:once', 'op:offcb', 'impl:parser', 'impl:emitter', 'impl:emitter0', 'impl:emittert', 'impl:emitterb'),
         quick=4000, thorough=160000, shards=(8, 16),
-        rule='history = 3-38 top-level operations (2-6 subscriptions, then 1-8 rounds of up to 3 arbitrary operations followed by an emit) (on/once with or without context, off(name), off(name,callback), emit(name,args)) over 3 names (in one variant of the emitter the first name is a tuple, in another the empty string) x 5 callbacks (two of them bound methods of a host object, fetched anew for every on/once/off, so equal but not identical); '
+        rule='history = 3-38 top-level operations (2-6 subscriptions, then 1-8 rounds of up to 3 arbitrary operations followed by an emit) (on/once with or without context, off(name), off(name,callback), emit(name,args)) over 3 names (in one variant of the emitter the first name is a tuple, in another the empty string, in a third the bytes object spelt like the second name; a context is a dict, a mappingproxy or a ChainMap) x 5 callbacks (two of them bound methods of a host object, fetched anew for every on/once/off, so equal but not identical); '
              'each callback carries a generated script of up to 3x3 operations it performs when invoked; oracle = reference emitter run in lockstep, '
              'compared after every operation on the delivery log (callback, arguments incl. the emitted name, context; order included) and on the listener table; '
              'non-trivial = at least two listeners on one name, at least one off/once, at least two deliveries'),
